@@ -148,7 +148,7 @@ def call(fn, *args, **kwargs):
     except (InvalidSpec, Violation):
         raise
     except BaseException as e:  # noqa: BLE001 - SystemExit/KeyboardInterrupt from the SUT are outcomes too
-        if isinstance(e, KeyboardInterrupt):
+        if isinstance(e, KeyboardInterrupt) and not getattr(e, "injected", False):
             raise
         return "exc", e
 
